@@ -609,6 +609,44 @@ func c18PoolCase(seq []int) rt.CaseResult {
 	return res
 }
 
+// c18ParallelParseCase: two goroutines make one parser call each (valid and erroneous inputs); under every
+// interleaving of the shim's points (Pool.Get/Put) each call must return what it returns alone. A pooled lexer or
+// parser that is still used after it was handed back is taken over by the other goroutine at exactly such a point.
+func c18ParallelParseCase(a, b int, bound int) rt.CaseResult {
+	res := rt.CaseResult{Counters: map[string]int64{"states": 1}}
+	calls := c18ParserCalls()
+	wantA, wantB := calls[a].fn(), calls[b].fn()
+	label := calls[a].name + " || " + calls[b].name
+	var gotA, gotB string
+	run := func(prefix []int) *vsync.Sched {
+		gotA, gotB = "", ""
+		return vsync.Run(prefix, []func(){func() { gotA = calls[a].fn() }, func() { gotB = calls[b].fn() }})
+	}
+	n, capped := c18Explore(run, bound, 200000, func(s *vsync.Sched, prefix []int) bool {
+		res.Counters["evaluations"]++
+		res.Counters["transitions"] += int64(len(s.Points))
+		res.Counters["traces_validated_against_impl"]++
+		w := map[string]any{"calls": []string{calls[a].name, calls[b].name}, "schedule": choicesOf(s)}
+		if s.Deadlock || s.Overrun || s.Diverged {
+			res.Violations = append(res.Violations, rt.Violation{Kind: "parallel-parse-harness-problem", Detail: fmt.Sprintf("%s: deadlock=%v overrun=%v diverged=%v", label, s.Deadlock, s.Overrun, s.Diverged), Witness: w})
+			return false
+		}
+		if gotA != wantA || gotB != wantB {
+			res.Violations = append(res.Violations, rt.Violation{Kind: "parallel-parses-interfere", Detail: fmt.Sprintf("%s under schedule %v: got %q and %q, alone they return %q and %q", label, choicesOf(s), gotA, gotB, wantA, wantB), Witness: w})
+			return false
+		}
+		return true
+	})
+	res.Counters["schedules"] = n
+	if capped {
+		res.Counters["scenarios_capped"] = 1
+	}
+	if n > 1 {
+		res.Counters["distinct_nontrivial"] = 1
+	}
+	return res
+}
+
 var c18Programs = []string{
 	"Decl e(A,B).\ne(1,2). e(2,3). e(3,1).\np(X,Y) :- e(X,Y).\np(X,Y) :- p(X,Z), e(Z,Y).\n",
 	"Decl n(A).\nn(1). n(2). n(5).\nb(X,Y) :- n(X), n(Y), X < Y.\nc(N) :- b(X,_) |> do fn:group_by(), let N = fn:count().\n",
@@ -713,6 +751,12 @@ func c18Cases(thorough bool) []c18Case {
 	for _, s := range seqs {
 		s := s
 		out = append(out, c18Case{fmt.Sprint("B-pool ", s), func() rt.CaseResult { return c18PoolCase(s) }})
+	}
+	for a := range calls {
+		for b := range calls {
+			a, b := a, b
+			out = append(out, c18Case{fmt.Sprintf("B-parallel-parse %d,%d", a, b), func() rt.CaseResult { return c18ParallelParseCase(a, b, bound) }})
+		}
 	}
 	for a := range c18Programs {
 		for b := range c18Programs {
